@@ -542,7 +542,7 @@ fn canon_model_f(f: &Sexp) -> String {
 pub fn run(cfg: &Cfg) -> Report {
   let mut rep = Report::new(
     "C02",
-    "operand classes (exact ties at the 34th digit, 34+ orders of magnitude apart, cancellation, zeros of both signs and all exponents, subnormals, overflow/underflow edges, small exact, 1..34-digit coefficients) x every operator (add sub mul div remainder modulo neg abs reduce floor ceiling trunc fract sqrt even odd is_integer decimal compare) at three layers (dec.rs wrappers, FeelNumber, FEEL text). Non-trivial: the result is not one of the operands unchanged; distinct by request line.",
+    "operand classes (exact ties at the 34th digit, 34+ orders of magnitude apart, cancellation, zeros of both signs and all exponents, subnormals, overflow/underflow edges, small exact, 1..34-digit coefficients) x every operator (add sub mul div remainder modulo neg abs reduce floor ceiling trunc fract sqrt even odd is_integer decimal compare) at three layers (dec.rs wrappers, FeelNumber, FEEL text); threads: the settled add / sub / mul / div cases (every second one a tie or near-tie at the 34th digit) computed by 8 threads at once while half of them interleave floor / ceiling / trunc / fract / decimal / even / odd, every answer equal to the sequential one, and once more alone afterwards. Non-trivial: the result is not one of the operands unchanged; distinct by request line.",
   );
   // debugging aid: VERIF_PROBE="expr;expr" prints what the implementation answers
   if let Ok(p) = std::env::var("VERIF_PROBE") {
@@ -665,8 +665,13 @@ pub fn run(cfg: &Cfg) -> Report {
   let answers = model.ask_batch(&reqs);
   let mut judge_queue: Vec<(usize, String)> = vec![];
   let mut judgev_queue: Vec<(usize, String)> = vec![];
+  // cases whose sequential answer agrees with the model and its specification verdict: the expectations of the
+  // `threads` family below
+  let mut settled: Vec<TItem> = vec![];
   for (idx, (c, ans)) in cases.iter().zip(answers.iter()).enumerate() {
     let input = c.req.clone();
+    let mut settled_raw: Option<String> = None;
+    let mut settled_f: Option<String> = None;
     let parsed = Sexp::parse(ans);
     let l = match parsed.as_ref().and_then(|s| s.as_list()) {
       Some(l) if l.len() == 4 && l[0].as_atom() == Some("op") => l.to_vec(),
@@ -712,6 +717,8 @@ pub fn run(cfg: &Cfg) -> Report {
             judge_queue.push((idx, i_raw.clone()));
           } else if spec_ok == "false" && !FN_SPEC_OPS.contains(&c.op) {
             rep.disagree(Kind::ImplVsSpec, c.op, &spec_signature(c.op, &c.a), &input, &i_raw, "the specification of the operation");
+          } else if i_raw != "na" {
+            settled_raw = Some(m_raw.clone());
           }
         }
         Err(p) => rep.disagree(Kind::ImplVsSpec, c.op, &format!("dec.rs {} panics", c.op), &input, &p, &m_raw),
@@ -728,9 +735,14 @@ pub fn run(cfg: &Cfg) -> Report {
         } else if spec_ok == "false" && FN_SPEC_OPS.contains(&c.op) {
           // for these the specification speaks about the FeelNumber method (dec.rs only has the raw decQuad tests)
           rep.disagree(Kind::ImplVsSpec, c.op, &spec_signature(c.op, &c.a), &input, &i_f, "the specification of the operation");
+        } else if i_f != "na" {
+          settled_f = Some(m_f.clone());
         }
       }
       Err(p) => rep.disagree(Kind::ImplVsSpec, c.op, &format!("FeelNumber {} panics", c.op), &input, &p, &m_f),
+    }
+    if (THREAD_WORK_OPS.contains(&c.op) || THREAD_INTEGRAL_OPS.contains(&c.op)) && (settled_raw.is_some() || settled_f.is_some()) {
+      settled.push(TItem { class: c.class, op: c.op, a: c.a.clone(), b: c.b.clone(), k: c.k, req: c.req.clone(), raw: settled_raw, f: settled_f });
     }
     // ---- layer 3: FEEL text
     if let Some(expr) = feel_expr(c.op, c.k) {
@@ -1204,10 +1216,161 @@ pub fn run(cfg: &Cfg) -> Report {
       }
     }
   }
+  // ---------------------------------------------------------------- the same operations from many threads at once
+  // (last: a context shared between threads can stay changed for the rest of the process)
+  threads_family(&mut rep, &settled, thorough);
+
   rep.extra.insert("unproved_ops".into(), json!(["exp and log: judged against computed enclosures of the true value (Driver/Transcend.lean), not modelled", "pow_inexact"]));
   rep.exhaustive = false;
   rep.model_requests = model.requests;
   rep
+}
+
+/// A case of the main run whose sequential answer is settled (equal to the model's, which its specification accepts).
+struct TItem {
+  class: &'static str,
+  op: &'static str,
+  a: D,
+  b: Option<D>,
+  k: i32,
+  req: String,
+  /// expected dec.rs-level answer
+  raw: Option<String>,
+  /// expected FeelNumber-level answer
+  f: Option<String>,
+}
+
+/// the operations whose result depends on the rounding mode of the decimal context
+const THREAD_WORK_OPS: [&str; 4] = ["add", "sub", "mul", "div"];
+/// the operations that round to an integer / to a scale with a rounding mode of their own
+const THREAD_INTEGRAL_OPS: [&str; 8] = ["floor", "ceiling", "trunc", "fract", "rescale", "even", "odd", "isint"];
+const THREADS_SIGNATURE: &str = "the result of an operation differs when other threads use numbers at the same time";
+const THREADS_AFTER_SIGNATURE: &str = "the result of an operation differs after other threads have used numbers";
+
+/// Both layers of one settled case; the differences from the expectation as (layer, observed, expected).
+fn titem_differences(it: &TItem) -> Vec<(&'static str, String, String)> {
+  let mut out = vec![];
+  if let Some(want) = &it.raw {
+    let got = impl_raw(it.op, &it.a, it.b.as_ref(), it.k).unwrap_or_else(|p| format!("panic: {}", p));
+    if got != *want {
+      out.push(("dec.rs", got, want.clone()));
+    }
+  }
+  if let Some(want) = &it.f {
+    let got = impl_feelnumber(it.op, &it.a, it.b.as_ref(), it.k).unwrap_or_else(|p| format!("panic: {}", p));
+    if got != *want {
+      out.push(("FeelNumber", got, want.clone()));
+    }
+  }
+  out
+}
+
+/// `threads`: every number operation is a function of its operands alone, whatever other threads compute at the
+/// same time (the decimal context — precision, rounding mode — is per call). The settled add / sub / mul / div cases
+/// of the main run (every second one an exact tie at the 34th digit or a tie and a little more / less: the results
+/// that tell the rounding modes apart) are computed by 8 threads at once for several rounds; the odd threads follow
+/// every operation by a floor / ceiling / trunc / fract / round-to-scale / even / odd / is-integer call on a number
+/// with a fraction (the operations that round with a mode of their own). Every answer must be the sequential one;
+/// afterwards every case is computed once more on the main thread.
+fn threads_family(rep: &mut Report, settled: &[TItem], thorough: bool) {
+  const THREADS: usize = 8;
+  let rounds = if thorough { 40 } else { 6 };
+  let ties: Vec<&TItem> = settled.iter().filter(|i| THREAD_WORK_OPS.contains(&i.op) && (i.class == "tie" || i.class == "sticky")).collect();
+  let others: Vec<&TItem> = settled.iter().filter(|i| THREAD_WORK_OPS.contains(&i.op) && !(i.class == "tie" || i.class == "sticky")).collect();
+  // rounding to an integer only touches numbers that have a fraction
+  let integral: Vec<&TItem> = settled.iter().filter(|i| THREAD_INTEGRAL_OPS.contains(&i.op) && i.a.exp < 0 && !i.a.is_zero()).collect();
+  if ties.is_empty() || others.is_empty() || integral.is_empty() {
+    rep.notes.push("threads: no settled cases to run concurrently".into());
+    return;
+  }
+  let mut work: Vec<&TItem> = vec![];
+  for (i, o) in others.iter().enumerate() {
+    work.push(o);
+    work.push(ties[i % ties.len()]);
+  }
+  for it in others.iter().chain(ties.iter()) {
+    let nontrivial = it.raw.as_ref().map(|r| *r != it.a.wire() && Some(r.clone()) != it.b.as_ref().map(|b| b.wire())).unwrap_or(true);
+    rep.case(&format!("threads {}", it.req), nontrivial);
+    rep.hit(&format!("threads:class:{}", it.class));
+    rep.hit(&format!("threads:op:{}", it.op));
+  }
+  for it in &integral {
+    rep.hit(&format!("threads:interleaved:{}", it.op));
+  }
+  // (item, thread, round, layer, observed, expected)
+  type Diff = (usize, bool, usize, usize, &'static str, String, String);
+  let mut diffs: Vec<Diff> = vec![];
+  let mut calls = 0u64;
+  for round in 0..rounds {
+    let barrier = std::sync::Barrier::new(THREADS);
+    let (work, integral, barrier) = (&work, &integral, &barrier);
+    let outs: Vec<(Vec<Diff>, u64)> = std::thread::scope(|sc| {
+      let handles: Vec<_> = (0..THREADS)
+        .map(|t| {
+          sc.spawn(move || {
+            let mut out: Vec<Diff> = vec![];
+            let mut n = 0u64;
+            // every thread walks the whole list, from a place of its own
+            let start = (t * work.len() / THREADS + round * 131) % work.len();
+            barrier.wait();
+            for j in 0..work.len() {
+              let wi = (start + j) % work.len();
+              n += 1;
+              for (layer, got, want) in titem_differences(work[wi]) {
+                if out.len() < 40 {
+                  out.push((wi, false, t, round, layer, got, want));
+                }
+              }
+              if t % 2 == 1 {
+                let ii = (j * 7 + t * 13 + round) % integral.len();
+                n += 1;
+                for (layer, got, want) in titem_differences(integral[ii]) {
+                  if out.len() < 40 {
+                    out.push((ii, true, t, round, layer, got, want));
+                  }
+                }
+              }
+            }
+            (out, n)
+          })
+        })
+        .collect();
+      handles.into_iter().map(|h| h.join().unwrap_or_default()).collect()
+    });
+    for (o, n) in outs {
+      calls += n;
+      diffs.extend(o);
+    }
+    crate::util::beat();
+  }
+  rep.extra.insert("threads_concurrent_calls".into(), json!(calls));
+  rep.extra.insert("threads_cases".into(), json!({"tie_or_sticky": ties.len(), "other": others.len(), "interleaved_integral": integral.len(), "threads": THREADS, "rounds": rounds}));
+  // stable order (the threads finish in any order)
+  diffs.sort_by(|x, y| (x.1, x.0, x.3, x.2).cmp(&(y.1, y.0, y.3, y.2)));
+  for (idx, is_integral, t, round, layer, got, want) in diffs {
+    let it = if is_integral { integral[idx] } else { work[idx] };
+    rep.disagree(
+      Kind::ImplVsSpec,
+      "threads",
+      THREADS_SIGNATURE,
+      &format!("{} {} ;; a={} b={} k={} ;; thread {} of {}, round {}; the odd threads follow every operation by floor / ceiling / trunc / fract / decimal / even / odd of a number with a fraction", layer, it.req, it.a.to_sci_input(), it.b.as_ref().map(|b| b.to_sci_input()).unwrap_or_default(), it.k, t, THREADS, round),
+      &got,
+      &want,
+    );
+  }
+  // afterwards, alone again
+  for it in others.iter().chain(ties.iter()).chain(integral.iter()) {
+    for (layer, got, want) in titem_differences(it) {
+      rep.disagree(
+        Kind::ImplVsSpec,
+        "threads",
+        THREADS_AFTER_SIGNATURE,
+        &format!("{} {} ;; a={} b={} k={}", layer, it.req, it.a.to_sci_input(), it.b.as_ref().map(|b| b.to_sci_input()).unwrap_or_default(), it.k),
+        &got,
+        &want,
+      );
+    }
+  }
 }
 
 fn feel_family(op: &str) -> &'static str {
